@@ -121,8 +121,48 @@ void sweep_md5(const char *expect) {
     else { std::vector<size_t> g; for (size_t v : grid) if (v <= L) g.push_back(v); if (L >= 1 && (g.empty() || g.back() < L - 1)) g.push_back(L - 1); if (g.empty() || g.back() < L) g.push_back(L);
       for (size_t i = 0; i < g.size(); i++) for (size_t j = i; j < g.size(); j++) check({g[i], g[j]}, "3-way-split"); }
     if (pi == 0) { std::vector<size_t> each; for (size_t a = 1; a < L; a++) each.push_back(a); check(each, "byte-at-a-time"); }
+    if (pi == 1) {   // two live instances fed alternately (they share only the constant padding block): neither disturbs the other
+      std::vector<uint8_t> m2 = pattern(2, L); auto it2 = g_expect.find("M:2:" + std::to_string(L)); const size_t a = L / 3, b = L - L / 4;
+      if (it2 != g_expect.end()) { C.transitions++; C.executions += 6; tbox::crypto::MD5 A, B; Ex a1(m2.data(), a), b1(m.data(), b), a2(m2.data() + a, L - a), b2(m.data() + b, L - b), da(16), db(16);
+        Guard g("MD5(two instances)", m.data(), L);
+        A.update(a1.p, a); B.update(b1.p, b); A.update(a2.p, L - a); if (L & 1) { A.finish(da.p); B.update(b2.p, L - b); B.finish(db.p); } else { B.update(b2.p, L - b); B.finish(db.p); A.finish(da.p); }
+        if (g.hit()) viol(generic_san_sig("md5-two-instances"), "L=" + std::to_string(L) + " " + Guard::desc());
+        if (hexs(da.p, 16) != it2->second || hexs(db.p, 16) != want) viol("md5-digest-differs-from-hashlib-two-interleaved-instances", "L=" + std::to_string(L) + " A(pattern 2, cut " + std::to_string(a) + ")=" + hexs(da.p, 16) + " B(pattern 5, cut " + std::to_string(b) + ")=" + hexs(db.p, 16)); } }
     if (L == 120 && pi == 0) sample("md5 pattern=2 L=120: single, all 121 two-way splits, 3-way grid, byte-at-a-time == hashlib " + want);
   } }
+}
+// MD5 messages long enough for the 64-bit bit counter to carry into its high word (2^29 bytes = 2^32 bits).
+//  * zeros of length 2^29+5 (calloc, never written): one update() of the whole message, 2^29 | 5, 5 | 2^29, and two halves
+//    (2^28+3 | 2^28+2: the LOW word wraps on the second update, the `count_[1]++` path).  Expected digest: RFC 1321 MD5 of that
+//    message = 53f83c490b7435d7e205466bfd984882 (hashlib, computed independently; check.py recomputes it in the thorough tier).
+//  * thorough: a patterned 1 MiB block fed 512 times plus a patterned tail of {0,1,55,56,64} bytes, vs hashlib fed the same way.
+static std::string md5_feed(const std::vector<std::pair<const uint8_t *, size_t>> &parts, const std::string &what) {
+  tbox::crypto::MD5 md5;
+  for (auto &pr : parts) { Guard g("MD5.update(big)", nullptr, 0); md5.update(pr.first, pr.second); if (g.hit()) viol(generic_san_sig("md5-update"), what + " " + Guard::desc()); }
+  Ex d(16); { Guard g("MD5.finish(big)", nullptr, 0, 16); md5.finish(d.p); if (g.hit()) viol(generic_san_sig("md5-finish"), what + " " + Guard::desc()); }
+  return hexs(d.p, 16); }
+void sweep_md5big(const char *expect) {
+  const size_t N = ((size_t)1 << 29) + 5; const char *want0 = "53f83c490b7435d7e205466bfd984882";
+  if (thorough()) { if (!load_expect(expect)) return; auto it = g_expect.find("Z:" + std::to_string(N)); if (it == g_expect.end() || it->second != want0) { viol("harness-md5-big-expectation-disagrees-with-hashlib", it == g_expect.end() ? "missing" : it->second); return; } }
+  uint8_t *z = (uint8_t *)calloc(N, 1); if (!z) { printf("@CAP md5big: cannot allocate %zu bytes\n", N); g_capped = true; return; }
+  const double t0 = now_s();
+  struct Split { const char *name; size_t a; bool quick; } splits[] = { {"single-update", N, true}, {"2^28+3|2^28+2", ((size_t)1 << 28) + 3, true}, {"2^29|5", (size_t)1 << 29, false}, {"5|2^29", 5, false} };
+  const bool all = thorough() || (getenv("C19_MD5_BIG_ALL") && atoi(getenv("C19_MD5_BIG_ALL")) > 0);
+  for (auto &sp : splits) { if (!sp.quick && !all) continue; if (now_s() > g_deadline) { g_capped = true; break; }
+    C.states++; C.transitions++; const std::string what = std::string("zeros L=2^29+5 updates=") + sp.name;
+    std::vector<std::pair<const uint8_t *, size_t>> parts; parts.push_back({z, sp.a}); if (sp.a < N) parts.push_back({z + sp.a, N - sp.a});
+    std::string d = md5_feed(parts, what);
+    if (d != want0) viol(sp.a == N ? "md5-single-update-of-2pow29-bytes-or-more-wrong-digest" : "md5-message-of-2pow29-bytes-or-more-wrong-digest", what + " got=" + d + " want=" + want0); }
+  free(z);
+  sample("md5 zeros L=2^29+5 (bit counter carries into the high word): single update / split updates == 53f83c490b7435d7e205466bfd984882");
+  if (thorough()) { const size_t B = (size_t)1 << 20; std::vector<uint8_t> blk = pattern(2, B); static const size_t tails[] = {0, 1, 55, 56, 64};
+    for (size_t t : tails) { if (now_s() > g_deadline) { g_capped = true; break; }
+      C.states++; C.transitions++; std::vector<uint8_t> tail = pattern(5, t); const std::string what = "512 x 1MiB pattern-2 block + pattern-5 tail of " + std::to_string(t);
+      auto it = g_expect.find("MB:" + std::to_string(t)); if (it == g_expect.end()) { viol("harness-expect-entry-missing", "MB:" + std::to_string(t)); continue; }
+      std::vector<std::pair<const uint8_t *, size_t>> parts; for (int i = 0; i < 512; i++) parts.push_back({blk.data(), B}); if (t) parts.push_back({tail.data(), t});
+      std::string d = md5_feed(parts, what);
+      if (d != it->second) viol("md5-message-of-2pow29-bytes-or-more-wrong-digest", what + " got=" + d + " want=" + it->second); } }
+  printf("@INFO md5big: %.1fs\n", now_s() - t0);
 }
 
 // ================================================================== AES-128 (reference from FIPS-197)
@@ -164,6 +204,31 @@ static void aes_one(const uint8_t key[16], const uint8_t pt[16], const char *kat
     Ex dec(16); C.executions++; { Ex w(want, 16); aes.invcipher(w.p, dec.p); }                  // decrypt the REFERENCE ciphertext as well
     if (memcmp(dec.p, pt, 16) != 0) viol("aes-invcipher-differs-from-fips197-reference", id + " got=" + hexs(dec.p, 16));
   }
+  // object life-cycle and aliasing: an object keyed with ANOTHER key (the previous pair's, or ~key) is re-keyed with setKey(),
+  // encrypts and decrypts IN PLACE (input == output), then handles a second block (the first ciphertext) and, re-keyed back and
+  // forth once more, still gives the reference answers
+  { C.transitions++; static uint8_t prev[16]; static bool have_prev = false; uint8_t other[16];
+    for (int i = 0; i < 16; i++) other[i] = have_prev && memcmp(prev, key, 16) != 0 ? prev[i] : (uint8_t)~key[i];
+    memcpy(prev, key, 16); have_prev = true;
+    uint8_t rko[176], want2[16], wanto[16]; aes_ref_cipher(rk, want, want2); aes_ref_expand(other, rko); aes_ref_cipher(rko, pt, wanto);
+    Ex k(key, 16), ko(other, 16), buf(pt, 16), b2(want, 16), o3(16);
+    Guard g("AES(rekey,in-place)", key, 16, 16);
+    tbox::crypto::AES aes2(ko.p);                                    // a second live object holding the other key throughout
+    tbox::crypto::AES aes(ko.p); aes.setKey(k.p); C.executions += 7;
+    aes.cipher(buf.p, buf.p); const bool enc_ok = memcmp(buf.p, want, 16) == 0; const std::string got1 = hexs(buf.p, 16);
+    aes.invcipher(buf.p, buf.p); const bool dec_ok = memcmp(buf.p, pt, 16) == 0;
+    aes.cipher(b2.p, o3.p); const bool second_ok = memcmp(o3.p, want2, 16) == 0;
+    aes.setKey(ko.p); aes.cipher(buf.p, o3.p); const bool other_ok = memcmp(o3.p, wanto, 16) == 0;
+    aes.setKey(k.p); aes.invcipher(b2.p, o3.p); const bool back_ok = memcmp(o3.p, pt, 16) == 0;
+    Ex o4(16), p4(pt, 16); aes2.cipher(p4.p, o4.p); const bool two_ok = memcmp(o4.p, wanto, 16) == 0;
+    if (g.hit()) viol(generic_san_sig("aes-rekey-inplace"), id + " " + Guard::desc());
+    const std::string id2 = id + " previous-key=" + hexs(other, 16);
+    if (!enc_ok) viol("aes-rekeyed-object-in-place-cipher-differs-from-fips197-reference", id2 + " got=" + got1 + " want=" + hexs(want, 16));
+    if (!dec_ok) viol("aes-rekeyed-object-in-place-invcipher-is-not-identity", id2 + " got=" + hexs(buf.p, 16));
+    if (!second_ok) viol("aes-second-block-on-same-object-differs-from-fips197-reference", id2);
+    if (!two_ok) viol("aes-second-live-object-disturbed-by-the-first", id2);
+    if (!other_ok || !back_ok) viol("aes-setKey-on-keyed-object-differs-from-fips197-reference", id2 + (other_ok ? " (second re-key back)" : " (re-key to previous key)"));
+  }
 }
 void sweep_aes(const char *expect) {
   if (!load_expect(expect)) return;
@@ -187,7 +252,7 @@ void sweep_aes(const char *expect) {
   for (int kb = 0; kb < 128 && !out_of_time(); kb++) if (kb % g_nparts == g_part) for (int pb = 0; pb < 128; pb++) { uint8_t k[16] = {0}, p[16] = {0}; k[kb / 8] = (uint8_t)(0x80 >> (kb % 8)); p[pb / 8] = (uint8_t)(0x80 >> (pb % 8));
     auto it = g_expect.find("B:" + std::to_string(kb) + ":" + std::to_string(pb)); if (it == g_expect.end()) { viol("harness-expect-entry-missing", "B:" + std::to_string(kb) + ":" + std::to_string(pb)); continue; }
     aes_one(k, p, nullptr, &it->second, "bit"); }
-  sample("aes all 128 single-bit keys x 128 single-bit blocks vs FIPS-197 reference (C++) and pure-python AES; invcipher(cipher(x))==x");
+  sample("aes all 128 single-bit keys x 128 single-bit blocks vs FIPS-197 reference (C++) and pure-python AES; invcipher(cipher(x))==x; fresh object / setKey on unkeyed object / re-keyed object working in place + second block");
   if (thorough()) {
     // single-bit keys x blocks with one byte set to each value (16 x 256), and keys with one byte set to each value x single-bit blocks
     for (int kb = 0; kb < 128 && !out_of_time(); kb++) if (kb % g_nparts == g_part) for (int pos = 0; pos < 16; pos++) for (int v = 0; v < 256; v++) { uint8_t k[16] = {0}, p[16] = {0}; k[kb / 8] = (uint8_t)(0x80 >> (kb % 8)); p[pos] = (uint8_t)v; aes_one(k, p, nullptr, nullptr, "bitkey-x-byteblock"); }
